@@ -580,3 +580,139 @@ Proof.
   split; [vm_compute; reflexivity|].
   eexists. vm_compute. repeat split; reflexivity.
 Qed.
+
+(* ---------------------------------------------------------------- the unit over time: the limit in force *)
+(* the state a history leaves behind (no answer function involved) *)
+Definition rq_state_after (s : rq_state) (ops : list rq_op) : rq_state :=
+  fold_left (fun s o => match o with
+                        | OLimits l => MkSt l (st_rib s)
+                        | OUpdate u => MkSt (st_lim s) (rib_apply (st_rib s) u)
+                        | ORequest _ => s
+                        end) ops s.
+
+Lemma rq_run_app answer tbl reg xs : forall s ys,
+  rq_run_with answer tbl reg s (xs ++ ys) =
+  rq_run_with answer tbl reg s xs ++ rq_run_with answer tbl reg (rq_state_after s xs) ys.
+Proof.
+  induction xs as [|o xs IH]; intros s ys; [reflexivity|].
+  destruct o as [l|u|rq]; cbn [app rq_run_with rq_step_with rq_state_after fold_left].
+  - apply IH.
+  - apply IH.
+  - rewrite IH. reflexivity.
+Qed.
+
+Lemma rq_run_length answer tbl reg xs : forall s,
+  length (rq_run_with answer tbl reg s xs) = rq_count_requests xs.
+Proof.
+  unfold rq_count_requests.
+  induction xs as [|o xs IH]; intros s; [reflexivity|].
+  destruct o as [l|u|rq]; cbn [rq_run_with rq_step_with filter rq_is_request length]; rewrite IH; reflexivity.
+Qed.
+
+Lemma rq_state_after_rib xs : forall s, st_rib (rq_state_after s xs) = rq_rib_after (st_rib s) xs.
+Proof.
+  unfold rq_state_after, rq_rib_after.
+  induction xs as [|o xs IH]; intros s; [reflexivity|].
+  destruct o as [l|u|rq]; cbn [fold_left]; rewrite IH; reflexivity.
+Qed.
+
+Lemma rq_state_after_lim_keep xs : forall s,
+  forallb (fun o => negb (rq_is_limits o)) xs = true -> st_lim (rq_state_after s xs) = st_lim s.
+Proof.
+  unfold rq_state_after.
+  induction xs as [|o xs IH]; intros s Hno; [reflexivity|].
+  cbn [forallb] in Hno. apply andb_true_iff in Hno as [Ho Hno].
+  destruct o as [l|u|rq]; cbn [fold_left]; [discriminate Ho| |]; rewrite (IH _ Hno); reflexivity.
+Qed.
+
+Lemma rq_state_after_app s xs ys : rq_state_after s (xs ++ ys) = rq_state_after (rq_state_after s xs) ys.
+Proof. unfold rq_state_after. apply fold_left_app. Qed.
+
+Lemma rq_count_requests_app xs ys : rq_count_requests (xs ++ ys) = (rq_count_requests xs + rq_count_requests ys)%nat.
+Proof. unfold rq_count_requests. rewrite filter_app, app_length. reflexivity. Qed.
+
+Lemma rq_rib_after_app r xs ys : rq_rib_after r (xs ++ ys) = rq_rib_after (rq_rib_after r xs) ys.
+Proof. unfold rq_rib_after. apply fold_left_app. Qed.
+
+(* the request that follows a history is answered from the state the history left *)
+Lemma rq_run_nth answer tbl reg s xs rq post :
+  nth_error (rq_run_with answer tbl reg s (xs ++ ORequest rq :: post)) (rq_count_requests xs) =
+  Some (rq_handle_with answer (st_lim (rq_state_after s xs)) (rq_rib_after (st_rib s) xs) tbl reg rq).
+Proof.
+  rewrite rq_run_app, nth_error_app2; rewrite rq_run_length; [|apply Nat.le_refl].
+  rewrite Nat.sub_diag. cbn [rq_run_with rq_step_with nth_error]. rewrite rq_state_after_rib. reflexivity.
+Qed.
+
+(* THE LIMIT IN FORCE IS THE CURRENT ONE. In any history, a request that comes
+   after the limits were set to [l] (and before they are set again) is answered
+   exactly as a unit configured with [l] from the start would answer it on the
+   RIB content of that moment - whatever the limits were when the API object
+   was created or at any earlier time; with no (re)configuration before it, by
+   the initial limits. For every answer function (code, exact store, property). *)
+Theorem limit_is_current answer tbl reg s rq post :
+  (forall pre l mid,
+     forallb (fun o => negb (rq_is_limits o)) mid = true ->
+     nth_error (rq_run_with answer tbl reg s (pre ++ OLimits l :: mid ++ ORequest rq :: post))
+               (rq_count_requests (pre ++ mid)) =
+     Some (rq_handle_with answer l (rq_rib_after (st_rib s) (pre ++ mid)) tbl reg rq)) /\
+  (forall pre,
+     forallb (fun o => negb (rq_is_limits o)) pre = true ->
+     nth_error (rq_run_with answer tbl reg s (pre ++ ORequest rq :: post)) (rq_count_requests pre) =
+     Some (rq_handle_with answer (st_lim s) (rq_rib_after (st_rib s) pre) tbl reg rq)).
+Proof.
+  split.
+  - intros pre l mid Hmid.
+    replace (pre ++ OLimits l :: mid ++ ORequest rq :: post)
+      with ((pre ++ OLimits l :: mid) ++ ORequest rq :: post)
+      by (rewrite <- app_assoc; reflexivity).
+    assert (Hc : rq_count_requests (pre ++ mid) = rq_count_requests (pre ++ OLimits l :: mid)).
+    { rewrite !rq_count_requests_app. unfold rq_count_requests at 4. cbn [filter rq_is_request]. reflexivity. }
+    assert (Hr : rq_rib_after (st_rib s) (pre ++ mid) = rq_rib_after (st_rib s) (pre ++ OLimits l :: mid)).
+    { rewrite !rq_rib_after_app. unfold rq_rib_after at 4. cbn [fold_left]. reflexivity. }
+    rewrite Hc, Hr, rq_run_nth. do 3 f_equal.
+    rewrite rq_state_after_app.
+    change (rq_state_after (rq_state_after s pre) (OLimits l :: mid))
+      with (rq_state_after (MkSt l (st_rib (rq_state_after s pre))) mid).
+    rewrite (rq_state_after_lim_keep mid _ Hmid). reflexivity.
+  - intros pre Hpre. rewrite rq_run_nth, (rq_state_after_lim_keep pre _ Hpre). reflexivity.
+Qed.
+
+(* consequence at the level a user sees: once the limit of the family was
+   raised above the length of the queried prefix, a more-specifics query for it
+   is refused - even if it was permitted when the API was created - and once it
+   was lowered to (or below) that length the limit plays no role any more *)
+Theorem reconfigured_limit_decides tbl reg s pre l mid rq post q inc :
+  forallb (fun o => negb (rq_is_limits o)) mid = true ->
+  rq_prefix_of rq = Some q ->
+  rq_parse_include (rq_params (rq_raw rq)) = Some inc -> i_more inc = true ->
+  let resp := nth_error (rq_run tbl reg s (pre ++ OLimits l :: mid ++ ORequest rq :: post)) (rq_count_requests (pre ++ mid)) in
+  (rq_len q < rq_limit l (rq_v6 rq) -> resp = Some RBad) /\
+  (rq_limit l (rq_v6 rq) <= rq_len q ->
+   resp = Some (rq_handle (MkLim 0 0) (rq_rib_after (st_rib s) (pre ++ mid)) tbl reg rq)).
+Proof.
+  intros Hmid Hq Hinc Hm resp. subst resp. unfold rq_run.
+  rewrite (proj1 (limit_is_current rq_answer_of tbl reg s rq post) pre l mid Hmid).
+  split; intros Hl.
+  - f_equal. exact (proj1 (limit_refuses l _ tbl reg rq q inc Hq Hinc Hm Hl)).
+  - f_equal. unfold rq_handle, rq_handle_with. rewrite Hq, (limit_only_shorter l _ _ _ Hl). reflexivity.
+Qed.
+
+(* a concrete history: created with the default limits (/8), 10.0.0.0/8 and a
+   /9 below it stored; moreSpecifics of 10.0.0.0/8 is answered; the unit is
+   reconfigured to /16: the same request is refused; reconfigured to /4: it is
+   answered again (the hypotheses of limit_is_current hold on it) *)
+Definition w_raw_more : list N := [105; 110; 99; 108; 117; 100; 101; 61; 109; 111; 114; 101; 83; 112; 101; 99; 105; 102; 105; 99; 115].
+
+Lemma limit_history_example :
+  let r := w_rib [(0, w_v4 167772160 8); (0, w_v4 167772160 9)] in
+  let rq := MkRequest false (w_bits 167772160 32) 8 (Some w_raw_more) in
+  let mid := [OUpdate (UWithdraw 9 None)] in
+  forallb (fun o => negb (rq_is_limits o)) mid = true /\
+  exists a,
+    rq_run w_attrs w_reg (MkSt (MkLim 8 19) r)
+           ([ORequest rq] ++ OLimits (MkLim 16 19) :: mid ++ ORequest rq :: [OLimits (MkLim 4 19); ORequest rq])
+    = [RJson a; RBad; RJson a] /\
+    a_more a = Some [MkEntry (rq_code (w_v4 167772160 9)) 1 true 7].
+Proof.
+  cbv zeta. split; [reflexivity|]. eexists. vm_compute. split; reflexivity.
+Qed.
